@@ -213,11 +213,11 @@ def set_union_merge_many(list arrays):
     varr = numpy.concatenate(value_arrays)
     cdef uint32[:] values = varr
     larr = numpy.array([arr.shape[0] for arr in value_arrays], dtype=int)
-    cdef long[:] lengths = larr
-    parr = numpy.concatenate([[0], lengths[:len(larr) - 1]])
-    cdef long[:] pointers = parr
-    limarr = parr + larr
+    # Each array occupies values[limit - length:limit].
+    limarr = numpy.cumsum(larr)
     cdef long[:] limits = limarr
+    parr = limarr - larr
+    cdef long[:] pointers = parr
     cdef uint32 limit_value = max([arr[len(arr) - 1] for arr in value_arrays]) + 1
 
     # Form a result array which we will fill with the set intersection results.
